@@ -493,7 +493,13 @@ func (pe *PolicyEngine) insertAdminNetworkPolicy(anp *apisv1a.AdminNetworkPolicy
 		return errors.New(netpolerrors.ANPsWithSameNameErr(anp.Name))
 	}
 	pe.adminNetpolsMap[anp.Name] = true
-	pe.sortedAdminNetpols = append(pe.sortedAdminNetpols, (*k8s.AdminNetworkPolicy)(anp))
+	// keep the list ordered by priority, so that policies are applied by priority whatever the insertion order was
+	idx := sort.Search(len(pe.sortedAdminNetpols), func(i int) bool {
+		return pe.sortedAdminNetpols[i].Spec.Priority > anp.Spec.Priority
+	})
+	pe.sortedAdminNetpols = append(pe.sortedAdminNetpols, nil)
+	copy(pe.sortedAdminNetpols[idx+1:], pe.sortedAdminNetpols[idx:])
+	pe.sortedAdminNetpols[idx] = (*k8s.AdminNetworkPolicy)(anp)
 	return nil
 }
 
